@@ -26,8 +26,9 @@ pub type WQuery = crate::route::MyQuery;
 // ---------------------------------------------------------------------------------------------
 // ContractWrapper entry points (typed for the chain / Empty-typed)
 
+/// what every supplied entry point returns: one attribute naming it, one event, NO data
 fn via<C: CustomMsg>(tag: &str) -> StdResult<Response<C>> {
-    Ok(Response::new().add_attribute("via", tag))
+    Ok(Response::new().add_attribute("via", tag).add_event(cosmwasm_std::Event::new("supplied").add_attribute("k", "v")))
 }
 pub fn w_exec_c(_: DepsMut<WQuery>, _: Env, _: MessageInfo, _: Empty) -> StdResult<Response<WMsg>> {
     via("exec_c")
@@ -69,9 +70,20 @@ pub fn w_checksum() -> Checksum {
     Checksum::generate(b"supplied checksum")
 }
 
+/// The name of the supplied function that answered, provided the response is exactly the one that
+/// function returns (a kept entry point is the supplied function: same attributes, events, data,
+/// messages); otherwise a description of the difference.
 fn attr_via(r: &AnyResult<Response<WMsg>>) -> String {
     match r {
-        Ok(r) => r.attributes.iter().find(|a| a.key == "via").map(|a| a.value.clone()).unwrap_or_else(|| "<no via attribute>".into()),
+        Ok(r) => {
+            let tag = r.attributes.iter().find(|a| a.key == "via").map(|a| a.value.clone()).unwrap_or_else(|| "<no via attribute>".into());
+            let want: Response<WMsg> = via::<WMsg>(&tag).unwrap();
+            if *r == want {
+                tag
+            } else {
+                format!("{} but the response differs from the one supplied: attributes {:?}, events {:?}, data {:?}, messages {}", tag, r.attributes, r.events, r.data, r.messages.len())
+            }
+        }
         Err(_) => "Err".into(),
     }
 }
